@@ -1,4 +1,5 @@
 import DnpProofs.Lemmas.Along
+import DnpProofs.Lemmas.ByName
 import DnpModel.Proc.Funcs
 import Mathlib.Algebra.Field.Basic
 import Mathlib.Tactic.Ring
@@ -167,5 +168,74 @@ theorem enh_trace (tr : List K) (k : Nat) (c : K) (hc : c ≠ 0) [Inhabited K] (
     simp only [Function.comp]
     exact enh_gain c x _ hc hk
   · right; omega
+
+/-- `mapM` over `Except` pairs every input with its own result, in order -/
+theorem mapM_except_forall₂ {α β ε : Type} (g : α → Except ε β) : ∀ (xs : List α) (ys : List β),
+    xs.mapM g = .ok ys → List.Forall₂ (fun x y => g x = .ok y) xs ys
+  | [], ys, h => by
+    simp only [List.mapM_nil, pure, Except.pure, Except.ok.injEq] at h
+    subst h; exact List.Forall₂.nil
+  | x :: xs, ys, h => by
+    simp only [List.mapM_cons, bind, Except.bind, pure, Except.pure] at h
+    cases hx : g x with
+    | error e => rw [hx] at h; cases h
+    | ok y =>
+      rw [hx] at h
+      simp only at h
+      cases hr : xs.mapM g with
+      | error e => rw [hr] at h; cases h
+      | ok rest =>
+        rw [hr] at h
+        simp only [Except.ok.injEq] at h
+        subst h
+        exact List.Forall₂.cons hx (mapM_except_forall₂ g xs rest hr)
+
+/-- integrate with regions: ONE entry per region, IN REQUEST ORDER, along a new last dimension `integrals`; entry k is the
+    whole-axis integral of the block `data[dim, (lo_k, hi_k)]`; the input's history is kept and one entry added -/
+theorem integrate_regions_spec [Inhabited K] (A : Arith K K) (arange : Nat → List K) (dist : K → K → K)
+    {d r : Data K K} {dim : String} {regions : List (K × K)}
+    (hr : integrateRegions A arange dist d dim regions = .ok r) :
+    ∃ parts : List (Data K K),
+      List.Forall₂ (fun reg p => ∃ sub,
+          ({ d with attrs := dictSet d.attrs "experiment_type" "'integrals'" } : Data K K).getitem dist A.klt
+              [(dim, Sel.range reg.1 reg.2)] = .ok sub ∧
+          integrateAll A sub dim = .ok p) regions parts ∧
+      r.hist = d.hist ++ [("integrate", ["dim", "regions"])] ∧
+      ∀ p0 rest, parts = p0 :: rest → (∀ p ∈ parts, p.Consistent) →
+        r.dims = p0.dims ++ ["integrals"] ∧
+        ∀ (ℓ : String → Nat) (k : Nat) (hk : k < parts.length), ℓ "integrals" = k → (∀ nm ∈ p0.dims, ℓ nm < p0.ext nm) →
+          r.getN ℓ = (parts[k]).values.get (p0.dims.map ℓ) := by
+  unfold integrateRegions at hr
+  simp only [bind, Except.bind] at hr
+  split at hr
+  · cases hr
+  · cases hm : regions.mapM (fun reg => do
+        let sub ← ({ d with attrs := dictSet d.attrs "experiment_type" "'integrals'" } : Data K K).getitem dist A.klt
+          [(dim, Sel.range reg.1 reg.2)]
+        integrateAll A sub dim) with
+    | error e => simp only [bind, Except.bind] at hm; rw [hm] at hr; cases hr
+    | ok parts =>
+      simp only [bind, Except.bind] at hm
+      rw [hm] at hr
+      simp only at hr
+      cases hc : Data.concat arange parts "integrals" (some (arange parts.length)) with
+      | error e => rw [hc] at hr; cases hr
+      | ok c =>
+        rw [hc] at hr
+        simp only [Except.ok.injEq] at hr
+        subst hr
+        refine ⟨parts, ?_, by simp [addHist], ?_⟩
+        · have := mapM_except_forall₂ _ regions parts hm
+          refine this.imp ?_
+          intro reg p hp
+          cases hs : ({ d with attrs := dictSet d.attrs "experiment_type" "'integrals'" } : Data K K).getitem dist A.klt
+              [(dim, Sel.range reg.1 reg.2)] with
+          | error e => rw [hs] at hp; cases hp
+          | ok sub => rw [hs] at hp; exact ⟨sub, rfl, hp⟩
+        · intro p0 rest hparts hall
+          obtain ⟨hd, hv⟩ := concat_byname arange p0 rest hparts hall hc
+          exact ⟨hd, fun ℓ k hk hℓk hℓ => by
+            have := hv ℓ k hk hℓk hℓ
+            simpa [getN, addHist] using this⟩
 
 end Dnp.C12
